@@ -52,3 +52,22 @@ Proof.
   intros m k Hk. cbn in Hk.
   destruct Hk as [<-|[<-|[<-|[<-|[]]]]]; destruct m; split; reflexivity.
 Qed.
+
+(* the K2 guard of find_template_spec_partial follows from a statement about pattern shapes: if
+   every alternative's target is what getTargetData reports for its shape, no alternative is
+   function-headed, and the matcher only accepts nodes the last step can match, then every
+   matching alternative is filed where the node is looked up *)
+Lemma filed_from_shapes :
+  forall (node : Type) (key_of : node -> nkey) (pmatch : N -> node -> bool) s n (shape_of : alt -> shape),
+  (forall t a, In t (all_templates s) -> In a (t_alts t) ->
+     a_target a = fst (target_data (shape_of a)) /\
+     sh_last (shape_of a) <> LFunction /\
+     (pmatch (a_pat a) n = true -> step_may_match (sh_last (shape_of a)) (key_of n) = true)) ->
+  filed_where_matching node key_of pmatch s n = true.
+Proof.
+  intros node key_of pmatch s n shape_of H. unfold filed_where_matching.
+  apply forallb_forall. intros t Ht. apply forallb_forall. intros a Ha.
+  destruct (H t a Ht Ha) as (H1 & H2 & H3).
+  destruct (pmatch (a_pat a) n) eqn:E; [|reflexivity]. cbn.
+  rewrite H1. apply filing_by_shape; [exact H2 | apply H3; reflexivity].
+Qed.
